@@ -12,7 +12,7 @@ ID = "C15"
 RULE = (
     "Style histories: add_style with all 15 attributes over documented domains (font family from the library's family table, "
     "sizes/indents/inset as float32-representable floats 0.25..144, RGB 0..255^3, 5x3 alignments, bools, background colour or "
-    "image with distinct file names; one style in four sets character attributes only); 1..6 styles applied to cells by object and by name; cells restyled, in histories and in a pair lane (a cell saved with style A is given style B on the same or the reopened handle and saved again); later attribute "
+    "image with distinct file names; one style in four sets character attributes only); 1..6 styles applied to cells by object and by name, also to cells hidden by a merged range (open document and saved file must then agree); cells restyled, in histories and in a pair lane (a cell saved with style A is given style B on the same or the reopened handle and saved again); later attribute "
     "edits of an applied style; read-only access (style, border) of arbitrary cells before saving; save+reopen at any point "
     "continuing on either handle. Border histories: stroke sequences on 3..8 x 3..8 tables (side, start cell, length 1..n, width "
     "with <=2 decimals, colour, solid/dashes/dots/none) including overlapping, abutting, contained and superseding strokes, "
@@ -87,6 +87,18 @@ class StyleExec(Exec):
             for c in range(table.num_cols):
                 self.ctx.ev()
                 got = style_tuple(table.cell(r, c).style)
+                if (r, c) in getattr(self, "hidden", ()):
+                    # a cell hidden by a merge: no expectation of its own, but the open document and the saved file must agree
+                    if reopened:
+                        seen = getattr(self, "hidden_open", {}).get((r, c))
+                        if seen is not None and seen != got:
+                            diffs = [a for a in seen if got.get(a) != seen[a]]
+                            self.fail(("style", "hidden_cell", *sorted(diffs)[:3]),
+                                      f"{where}: hidden cell ({r},{c}) of a merged range: the open document reported { {a: seen[a] for a in diffs} }, the saved file reads { {a: got.get(a) for a in diffs} }")
+                    else:
+                        self.hidden_open = getattr(self, "hidden_open", {})
+                        self.hidden_open[(r, c)] = got
+                    continue
                 want = self.expected_for((r, c))
                 diffs = [a for a in want if got.get(a) != want[a]]
                 if diffs:
@@ -158,6 +170,26 @@ class StyleExec(Exec):
         if hasattr(self, "named_cells"):
             self.named_cells.discard((row, col))
         self.check_view(self.table, "apply")
+
+    def op_merge(self, rect):
+        """a merged range in the styled table: its hidden cells have no record in the file"""
+        r0, c0, r1, c1 = rect
+        from vf import a1
+
+        self.table.merge_cells(a1.cell_name(r0, c0) + ":" + a1.cell_name(r1, c1))
+        self.hidden = getattr(self, "hidden", set()) | {(r, c) for r in range(r0, r1 + 1) for c in range(c0, c1 + 1) if (r, c) != (r0, c0)}
+        for rc in self.hidden:
+            self.cellstyle.pop(rc, None)
+        self.flags.add("merged_range")
+
+    def op_apply_hidden(self, row, col, idx, by_name):
+        """a style given to a cell hidden by a merge: whatever the open document reports for that cell afterwards is what the saved
+        file must report too (the library refuses the call with a RuntimeWarning; the cell then keeps showing the default)"""
+        with warnings.catch_warnings():
+            warnings.simplefilter("ignore")
+            self.table.set_cell_style(row, col, self.smodel[idx]["name"] if by_name and idx not in getattr(self, "renamed", ()) else self.styles[idx])
+        self.flags.add("style_on_hidden_cell")
+        self.check_view(self.table, "apply_hidden")
 
     def op_apply_saved_name(self, row, col, name):
         """On a reopened handle: a style that was saved with the document, applied by its name.  Whatever the open document
@@ -327,8 +359,9 @@ def make_style_machine(ctx):
             if self.dead or not self.ex.styles:
                 return
             t = self.ex.table
-            self.step("apply", row=data.draw(st.integers(0, t.num_rows - 1)), col=data.draw(st.integers(0, t.num_cols - 1)),
-                      idx=data.draw(st.integers(0, len(self.ex.styles) - 1)), by_name=by_name)
+            row, col = data.draw(st.integers(0, t.num_rows - 1)), data.draw(st.integers(0, t.num_cols - 1))
+            op = "apply_hidden" if (row, col) in getattr(self.ex, "hidden", ()) else "apply"
+            self.step(op, row=row, col=col, idx=data.draw(st.integers(0, len(self.ex.styles) - 1)), by_name=by_name)
 
         @rule(data=st.data(), by_name=st.booleans())
         def restyle(self, data, by_name):
@@ -340,14 +373,37 @@ def make_style_machine(ctx):
             self.step("apply", row=row, col=col, idx=data.draw(st.integers(0, len(self.ex.styles) - 1)), by_name=by_name)
 
         @rule(data=st.data())
+        def merge(self, data):
+            self.ensure(data)
+            if self.dead or getattr(self.ex, "hidden", None):
+                return
+            t = self.ex.table
+            r0 = data.draw(st.integers(0, t.num_rows - 2))
+            c0 = data.draw(st.integers(0, t.num_cols - 2))
+            r1 = data.draw(st.integers(r0, min(t.num_rows - 1, r0 + 1)))
+            c1 = data.draw(st.integers(c0 + (1 if r1 == r0 else 0), min(t.num_cols - 1, c0 + 1)))
+            self.step("merge", rect=[r0, c0, r1, c1])
+
+        @rule(data=st.data(), by_name=st.booleans())
+        def apply_hidden(self, data, by_name):
+            self.ensure(data)
+            hidden = sorted(getattr(self.ex, "hidden", ()))
+            if self.dead or not hidden or not self.ex.styles:
+                return
+            row, col = data.draw(st.sampled_from(hidden))
+            self.step("apply_hidden", row=row, col=col, idx=data.draw(st.integers(0, len(self.ex.styles) - 1)), by_name=by_name)
+
+        @rule(data=st.data())
         def apply_saved_name(self, data):
             self.ensure(data)
             names = sorted(getattr(self.ex, "frozen_names", ()))
             if self.dead or not names:
                 return
             t = self.ex.table
-            self.step("apply_saved_name", row=data.draw(st.integers(0, t.num_rows - 1)), col=data.draw(st.integers(0, t.num_cols - 1)),
-                      name=data.draw(st.sampled_from(names)))
+            row, col = data.draw(st.integers(0, t.num_rows - 1)), data.draw(st.integers(0, t.num_cols - 1))
+            if (row, col) in getattr(self.ex, "hidden", ()):
+                return
+            self.step("apply_saved_name", row=row, col=col, name=data.draw(st.sampled_from(names)))
 
         @rule(data=st.data())
         def edit(self, data):
@@ -774,6 +830,8 @@ ADJACENT_PAIRS = [
     ({"bg_color": None, "bg_image": ["budget.numbers-cat.png", "89504e470d0a1a0a0a0b0c"]}, {"bg_color": None, "bg_image": ["plain.png", "89504e470d0a1a0a0d0e0f"]}),
     # image files named like other parts of a package
     ({"bg_color": None, "bg_image": ["photo-index.zip", "89504e470d0a1a0a111213"]}, {"bg_color": None, "bg_image": ["Tile.iwa.png", "89504e470d0a1a0a141516"]}),
+    # an image file named like the inner archive of a document
+    ({"bg_color": None, "bg_image": ["Index.zip", "89504e470d0a1a0a212223"]}, {"bg_color": None, "bg_image": ["Metadata.plist", "89504e470d0a1a0a242526"]}),
     # the same picture under two file names: two images of the document
     ({"bg_color": None, "bg_image": ["one.png", "89504e470d0a1a0a0102030405"]}, {"bg_color": None, "bg_image": ["two.png", "89504e470d0a1a0a0102030405"]}),
 ]
